@@ -64,6 +64,12 @@ type c01Client struct {
 	respSize int
 	latMs    int
 	abort    bool
+	mayFail  bool
+	// trMode: how the backend sends its trailers for this request: 0 announced,
+	// 1 not announced (plus a second unannounced one), 2 no trailers at all
+	trMode  int
+	trOwner string
+	trExtra int
 
 	done    bool
 	err     string
@@ -79,7 +85,8 @@ func init() { register("C01", worldC01) }
 
 func worldC01(w *World) {
 	t := w.T
-	faulty := w.Cfg == "faulty"
+	faulty := w.Cfg == "faulty" || w.Cfg == "restart"
+	restart := w.Cfg == "restart"
 	nMax := 8
 	if w.Tier == "thorough" {
 		nMax = 48
@@ -111,10 +118,35 @@ func worldC01(w *World) {
 		}
 		c.respSize = sizes[t.Choice(len(sizes), "respsize")]
 		c.latMs = []int{0, 0, 1, 50, 2000}[t.Choice(5, "backendlat")]
+		c.trMode = t.Pick("trailermode", 3, 1, 1)
 		if faulty {
 			c.abort = t.Rare(1, 4, "abort?")
 		}
+		if restart {
+			c.abort = false
+			c.mayFail = true // in flight when the proxy is killed
+			c.latMs = []int{0, 50, 2000, 4000}[t.Choice(4, "backendlat2")]
+		}
 		clients[i] = c
+	}
+	// restart leg: the proxy process is killed and started again behind the same
+	// address while the agent keeps running; then new clients arrive
+	var later []*c01Client
+	crashAt := []time.Duration{50 * time.Millisecond, 500 * time.Millisecond, 2500 * time.Millisecond}[t.Choice(3, "crashat")]
+	downFor := []time.Duration{0, 100 * time.Millisecond, 2 * time.Second}[t.Choice(3, "downfor")]
+	if restart {
+		nl := t.Range(1, 4, "laterclients")
+		for i := 0; i < nl; i++ {
+			c := &c01Client{tok: fmt.Sprintf("late%02d-%d", i, t.Choice(1000, "tokrand"))}
+			c.method = []string{"GET", "POST"}[t.Choice(2, "method")]
+			if c.method != "GET" {
+				c.reqSize = sizes[t.Choice(len(sizes), "reqsize")]
+			}
+			c.respSize = sizes[t.Choice(len(sizes), "respsize")]
+			c.trMode = t.Pick("trailermode", 3, 1, 1)
+			later = append(later, c)
+		}
+		clients = append(clients, later...)
 	}
 	var seenMu sync.Mutex
 	seen := map[string]int{}
@@ -148,17 +180,29 @@ func worldC01(w *World) {
 			}
 			rw.Header().Set("X-Echo-Token", mixed)
 			rw.Header().Set("X-Req-Len", strconv.Itoa(len(body)))
-			rw.Header().Set("Trailer", "X-Trailer-Token")
-			rw.WriteHeader(c01Status(tok))
-			rw.Write(tokenBody(mixed+"/resp", want))
-			rw.Header().Set("X-Trailer-Token", mixed)
+			switch r.Header.Get("X-Trailer-Mode") {
+			case "1":
+				rw.WriteHeader(c01Status(tok))
+				rw.(http.Flusher).Flush() // chunked framing, so that trailers can follow
+				rw.Write(tokenBody(mixed+"/resp", want))
+				rw.Header().Set(http.TrailerPrefix+"X-Trailer-Token", mixed)
+				rw.Header().Set(http.TrailerPrefix+"X-Trailer-Owner", mixed)
+			case "2":
+				rw.WriteHeader(c01Status(tok))
+				rw.Write(tokenBody(mixed+"/resp", want))
+			default:
+				rw.Header().Set("Trailer", "X-Trailer-Token")
+				rw.WriteHeader(c01Status(tok))
+				rw.Write(tokenBody(mixed+"/resp", want))
+				rw.Header().Set("X-Trailer-Token", mixed)
+			}
 		}))
 	})
 	startAgent(w)
 
 	var wg sync.WaitGroup
 	byOwner := map[int][]*c01Client{}
-	for i, c := range clients {
+	for i, c := range clients[:len(owner)] {
 		byOwner[owner[i]] = append(byOwner[owner[i]], c)
 	}
 	for oi := 0; oi < n; oi++ {
@@ -175,8 +219,33 @@ func worldC01(w *World) {
 			}
 		})
 	}
+	var lwg sync.WaitGroup
+	if restart {
+		lwg.Add(1)
+		w.K.Spawn("operator", func() {
+			defer lwg.Done()
+			time.Sleep(crashAt)
+			w.K.Crash("proxy")
+			w.K.Count("fault.proxy_killed_and_restarted")
+			time.Sleep(downFor)
+			startProxy(w)
+			time.Sleep(200 * time.Millisecond)
+			var cw sync.WaitGroup
+			for _, c := range later {
+				c := c
+				cw.Add(1)
+				go func() {
+					defer cw.Done()
+					c01Do(w, w.Client(), c, clients)
+				}()
+			}
+			cw.Wait()
+			w.Probe("requests_after_proxy_restart")
+		})
+	}
 	w.K.Spawn("controller", func() {
 		wg.Wait()
+		lwg.Wait()
 		w.K.Stop()
 	})
 	c01Finish(w, n, faulty, clients, seen)
@@ -194,6 +263,7 @@ func c01Do(w *World, cl *http.Client, c *c01Client, clients []*c01Client) {
 			req.Header.Set("X-Token", c.tok)
 			req.Header.Set("X-Resp-Size", strconv.Itoa(c.respSize))
 			req.Header.Set("X-Lat-Ms", strconv.Itoa(c.latMs))
+			req.Header.Set("X-Trailer-Mode", strconv.Itoa(c.trMode))
 			cl.Timeout = 0
 			if c.abort {
 				cl.Timeout = time.Duration(1+len(c.tok)%3) * 500 * time.Millisecond
@@ -212,6 +282,8 @@ func c01Do(w *World, cl *http.Client, c *c01Client, clients []*c01Client) {
 			c.status = resp.StatusCode
 			c.hdrTok = resp.Header.Get("X-Echo-Token")
 			c.trTok = resp.Trailer.Get("X-Trailer-Token")
+			c.trOwner = resp.Trailer.Get("X-Trailer-Owner")
+			c.trExtra = len(resp.Trailer)
 			c.bodyLen = len(b)
 			c.bodyOK = bytes.Equal(b, tokenBody(c.tok+"/resp", c.respSize))
 			if !c.bodyOK && len(b) >= 0 {
@@ -232,6 +304,9 @@ func c01Finish(w *World, n int, faulty bool, clients []*c01Client, seen map[stri
 
 	w.OnCheck(func() {
 		for _, e := range w.K.Exits {
+			if e.Msg == sim.HarnessKill {
+				continue
+			}
 			w.Violation("crash", "node %s exited: %s", e.Node, e.Msg)
 		}
 		for _, c := range clients {
@@ -242,7 +317,7 @@ func c01Finish(w *World, n int, faulty bool, clients []*c01Client, seen map[stri
 				continue
 			}
 			if c.err != "" {
-				if !c.abort {
+				if !c.abort && !c.mayFail {
 					w.Violation("progress", "client %s failed: %s", c.tok, c.err)
 				}
 				continue
@@ -257,12 +332,31 @@ func c01Finish(w *World, n int, faulty bool, clients []*c01Client, seen map[stri
 			if !c.bodyOK {
 				w.Violation("correlation", "client %s received a body (len %d, want %d) that is not its own (owner %q)", c.tok, c.bodyLen, c.respSize, c.bodyTok)
 			}
-			if c.trTok != c.tok {
+			wantTr := c.tok
+			if c.trMode == 2 {
+				wantTr = ""
+			}
+			if c.trTok != wantTr {
 				w.Violation("correlation", "client %s received trailer of %q", c.tok, c.trTok)
+			}
+			if c.trOwner != "" && c.trOwner != c.tok {
+				w.Violation("correlation", "client %s received a trailer produced for another request | %q", c.tok, c.trOwner)
+			}
+			if c.trMode == 2 && c.trExtra > 0 {
+				w.Violation("correlation", "client %s received trailers although the backend sent none for its request | %d trailer fields (other requests of this run carried unannounced trailers)", c.tok, c.trExtra)
+			}
+			if c.trMode == 1 {
+				w.Probe("unannounced_trailers")
 			}
 		}
 		for tok, cnt := range seen {
-			if cnt > 1 {
+			resent := false
+			for _, c := range clients {
+				if c.tok == tok && c.mayFail {
+					resent = true // the client's own HTTP stack may re-send a request whose connection died with the old proxy
+				}
+			}
+			if cnt > 1 && !resent {
 				w.Violation("at-most-once", "backend saw token %s %d times", tok, cnt)
 			}
 		}
